@@ -20,12 +20,14 @@ using namespace libcellml;
 
 static void symInterface(const VariablePtr &v)
 {
-    int k = vin(0, 5); // unset, none, public, private, public_and_private, an invalid string
+    int k = vin(0, 7); // unset, none, public, private, public_and_private, invalid strings (two of them contain a valid word)
     if (k == 1) v->setInterfaceType(Variable::InterfaceType::NONE);
     if (k == 2) v->setInterfaceType(Variable::InterfaceType::PUBLIC);
     if (k == 3) v->setInterfaceType(Variable::InterfaceType::PRIVATE);
     if (k == 4) v->setInterfaceType(Variable::InterfaceType::PUBLIC_AND_PRIVATE);
     if (k == 5) v->setInterfaceType(std::string("x"));
+    if (k == 6) v->setInterfaceType(std::string("not_private"));
+    if (k == 7) v->setInterfaceType(std::string("private_and_public"));
 }
 // does interface string s cover requirement (needPublic, needPrivate)?  (CellML 2.0 section 3.10 as applied by the validator)
 static bool covers(const std::string &s, bool needPublic, bool needPrivate)
@@ -109,6 +111,27 @@ extern "C" void h_fix_interfaces()
     Variable::addEquivalence(v1, v2);
     bool ok = m->fixVariableInterfaces();
     vcheck(!ok, "fixVariableInterfaces reports cousins");
+#elif POS == 7
+    // v1 is connected to a sibling, to a child and - last - to a parentless variable: still a failure
+    m->addComponent(c1); m->addComponent(c2); c1->addComponent(c3);
+    auto vx = Variable::create("x");
+    Variable::addEquivalence(v1, v2);
+    Variable::addEquivalence(v1, v3);
+    Variable::addEquivalence(v1, vx);
+    bool ok = m->fixVariableInterfaces();
+    vcheck(!ok, "fixVariableInterfaces reports an equivalence with a parentless variable");
+    CHECK_VAR(v2, true, false, b2) CHECK_VAR(v3, true, false, b3)
+#elif POS == 8
+    // v1 is connected to a sibling, to a child and - last - to an unreachable grandchild (c4 below c3)
+    m->addComponent(c1); m->addComponent(c2); c1->addComponent(c3); c3->addComponent(c4);
+    auto v4 = Variable::create("s");
+    c4->addVariable(v4);
+    Variable::addEquivalence(v1, v2);
+    Variable::addEquivalence(v1, v3);
+    Variable::addEquivalence(v1, v4);
+    bool ok = m->fixVariableInterfaces();
+    vcheck(!ok, "fixVariableInterfaces reports components that are neither siblings nor parent and child");
+    CHECK_VAR(v2, true, false, b2) CHECK_VAR(v3, true, false, b3)
 #endif
     vout("ok", ok);
     END();
@@ -167,11 +190,17 @@ extern "C" void h_clean()
     auto m = Model::create("m");
     auto c1 = Component::create("");
     auto c2 = Component::create("");
+    auto c3 = Component::create("");
     auto keep = Component::create("k");
     auto u1 = Units::create("");
     auto u2 = Units::create("w");
     bool n1 = vin(0, 1), i1 = vin(0, 1), m1 = vin(0, 1), var1 = vin(0, 1);
     bool n2 = vin(0, 1), i2 = vin(0, 1);
+#ifdef C3NAMED
+    const bool n3 = true;
+#else
+    const bool n3 = false; // whether the second child is empty is fixed per query
+#endif
     bool un = vin(0, 1), ui = vin(0, 1), uc = vin(0, 1);
     if (n1) c1->setName("x");
     if (i1) c1->setId("i");
@@ -183,18 +212,22 @@ extern "C" void h_clean()
     if (un) u1->setName("u");
     if (ui) u1->setId("k");
     if (uc) u1->addUnit("metre");
+    if (n3) c3->setName("z");
     c1->addComponent(c2);
+    c1->addComponent(c3); // a second, adjacent child
     m->addComponent(c1);
     m->addComponent(keep);
     m->addUnits(u1);
     m->addUnits(u2);
     m->clean();
     bool c2empty = !n2 && !i2;
-    bool c1empty = !n1 && !i1 && !m1 && !var1 && c2empty;
+    bool c3empty = !n3;
+    bool c1empty = !n1 && !i1 && !m1 && !var1 && c2empty && c3empty;
     bool u1empty = !un && !ui && !uc;
     vout("components", m->componentCount()); vout("units", m->unitsCount());
     vcheck((c1->parent() == nullptr) == c1empty, "clean removes exactly the empty top-level component");
     vcheck((c2->parent() == nullptr) == c2empty, "clean removes exactly the empty child component");
+    vcheck((c3->parent() == nullptr) == c3empty, "clean removes exactly the empty child components, adjacent ones included");
     vcheck((u1->parent() == nullptr) == u1empty, "clean removes exactly the empty units");
     vcheck(keep->parent() == m && u2->parent() == m, "clean leaves non-empty components and units in place");
     vcheck(m->componentCount() == (size_t)(c1empty ? 1 : 2) && m->unitsCount() == (size_t)(u1empty ? 1 : 2), "clean leaves everything else untouched");
